@@ -12,7 +12,7 @@ Here is a semantic property the project is supposed to satisfy (JSON record):
 
 Your task: produce ONE realistic code change (a regression a maintainer could plausibly introduce during a refactor, optimisation or feature change — not sabotage that is obvious at a glance) to the project's source under {wt}/vgi_rpc that BREAKS this property while
   (a) the package still imports, and strict `mypy` + `ruff check` + `ruff format --check` stay clean on the files you changed (the project's test suite enforces them): run `/venv/bin/python -m ruff check <files> && /venv/bin/python -m ruff format --check <files> && /venv/bin/python -m mypy <files>` from {wt};
-  (b) the project's existing tests still pass: run the test files relevant to the code you changed with `cd {wt} && PYTHONPATH={wt} /venv/bin/python -m pytest -q -p no:cacheprovider -x -n 4 tests/<relevant files>` and compare with the same command on the unmodified tree (`git stash` / `git stash pop`): no test that passes without your change may fail with it (many `[http]`-parametrised tests already fail in this sandbox because they need a real server — ignore those that fail both ways);
+  (b) the project's existing tests still pass: run the test files relevant to the code you changed with `cd {wt} && PYTHONPATH={wt} /venv/bin/python -m pytest -q -p no:cacheprovider -x -n 4 tests/<relevant files>` and compare with the same command on the unmodified tree (save your change with `git diff > {wt}-out/wip.diff`, revert it with `git apply -R {wt}-out/wip.diff`, re-apply with `git apply {wt}-out/wip.diff`; NEVER use `git stash` — the stash is shared with other worktrees of this repository): no test that passes without your change may fail with it (many `[http]`-parametrised tests already fail in this sandbox because they need a real server — ignore those that fail both ways);
   (c) the breakage needs something SPECIFIC to manifest — a particular interleaving, a fault at a particular point, a multi-step sequence of operations, an unusual input or configuration value, or two cooperating sites that each look fine alone — rather than something ordinary use would expose at once.
 
 Also write a demonstration: a small standalone Python program `{wt}-out/demo.py` (run as `PYTHONPATH=<tree> /venv/bin/python demo.py`; exit code 0 = property held, exit code 1 = property violated, printing what it observed) that exits 1 with your change applied and exits 0 on the unmodified tree. It must be deterministic (no reliance on timing luck; if it needs an interleaving, force it with events/barriers or monkeypatched hooks), finish within 60 s, use only the project's behaviour (no mocks of the code path that you changed), and need no network beyond loopback.
@@ -21,4 +21,4 @@ Deliverables in {wt}-out/ (create the directory):
   - patch.diff  — `git -C {wt} diff` of your change (source files only, applies with `git apply` on the unmodified tree);
   - demo.py     — as above;
   - meta.json   — {{"property": "{pid}", "summary": "<one line: what the change does>", "needs": "<what specific input/sequence/interleaving/config makes it manifest>", "files": [...], "tests_run": "<the pytest command(s) you ran and their pass/fail counts with and without the change>", "demo_without_change": "<exit code + last output line>", "demo_with_change": "<exit code + last output line>"}}.
-Before finishing: verify yourself that demo.py exits 0 on the clean tree and 1 with the patch, that patch.diff applies cleanly to a clean checkout (`git stash; git apply --check {wt}-out/patch.diff; git stash pop` or equivalent), and leave the worktree with your change applied. Do not commit. Keep your final answer short: the summary, what it needs to manifest, and the verification results.""")
+Before finishing: verify yourself that demo.py exits 0 on the clean tree and 1 with the patch, that patch.diff applies cleanly to a clean checkout (`git apply -R {wt}-out/patch.diff && git apply --check {wt}-out/patch.diff && git apply {wt}-out/patch.diff`), and leave the worktree with your change applied. Do not commit. Keep your final answer short: the summary, what it needs to manifest, and the verification results.""")
